@@ -1,5 +1,6 @@
 \* 4-bit bytes (base 16): shuffle of 0..4 elements, sample(n <= 4, k <= n); every tape of up to 3 bytes explored and counted (4096 per case)
-CONSTANTS BW = 4
+CONSTANTS NaiveShuffle = FALSE
+BW = 4
 MaxN = 4
 MaxLen = 3
 FibreLen = 3
